@@ -10,6 +10,8 @@ from __future__ import annotations
 import json
 import random
 
+import numpy as np
+
 import gs
 import runs
 from c04 import DATES, make_population
@@ -68,6 +70,19 @@ def job(j):
             continue
         tr.run(tid, k, "override", res, list(res.columns), node=n, warned=warned)
         info["runs"].append({"run": k, "node": n, "nontrivial": n in has_desc})
+        # the same values in another, losslessly convertible dtype (an int or bool column read back as float64): the supplied
+        # column is converted to the rule's type, so nothing may raise and nothing may change
+        if base[n].dtype.kind in "ib" and k % 2 == 0:
+            k += 1
+            d3 = df.copy()
+            d3[n] = base[n].to_numpy().astype(np.float64)
+            try:
+                res3, warned3, conv3, other3 = runs.compute_warn(d3, date, targets=targets)
+            except Exception as e:  # noqa: BLE001
+                info["errors"].append({"run": k, "node": n, "as": "float64", "error": f"{type(e).__name__}: {str(e)[:160]}"})
+                continue
+            tr.run(tid, k, "override", res3, list(res3.columns), node=n, warned=warned3)
+            info["runs"].append({"run": k, "node": n, "nontrivial": n in has_desc, "as": "float64"})
     out = tr.judge()
     info["bad"] = out["bad"]
     info["tlc_states"] = out["tlc_states"]
@@ -122,7 +137,7 @@ def run(tier):
                 chk.distinct(f"{info['date']}:{r['node']}")
             nodes_done.add(r["node"])
         for e in info["errors"]:
-            chk.violation(f"C05|raised|node={e['node']}|{e['error'][:40]}", "supplying a computed column as data raised", {"date": info["date"], "persons": info["persons"], **e})
+            chk.violation(f"C05|raised|node={e['node']}" + (f"|as={e['as']}" if "as" in e else "") + f"|{e['error'][:40]}", "supplying a computed column as data raised", {"date": info["date"], "persons": info["persons"], **e})
         seen = set()
         for b in info["bad"]:
             node = byrun.get(b["run"], {}).get("node")
@@ -161,8 +176,12 @@ def replay(path):
     tr.base(0, base, cols, runs.dag_export(date, list(df)))
     n = case["node"]
     d2 = df.copy()
-    d2[n] = base[n].to_numpy()
-    res, warned, conv, other = runs.compute_warn(d2, date, targets=[c for c in cols if c != n])
+    d2[n] = base[n].to_numpy().astype(np.float64) if case.get("as") == "float64" else base[n].to_numpy()
+    try:
+        res, warned, conv, other = runs.compute_warn(d2, date, targets=[c for c in cols if c != n])
+    except Exception as e:  # noqa: BLE001
+        print("raised:", type(e).__name__, str(e)[:200])
+        return 1
     tr.run(0, 1, "override", res, list(res.columns), node=n, warned=warned)
     out = tr.judge()
     print("bad:", out["bad"][:10])
